@@ -10,5 +10,8 @@ CONSTANTS
   ValuelessEntries = {}
   TextEntries = {}
   TextVals = {}
+  MultiEntries = {}
+  CompoundPaths = {}
+  KeylessPaths = {}
 POSTCONDITION Accepted
 CHECK_DEADLOCK FALSE
